@@ -167,6 +167,8 @@ def _sg(K):
 def _match(exp, out, env, W):
     """True / False / None (undecidable) for an expectation against an outcome."""
     kind = exp[0]
+    if kind == "any":
+        return True
     if kind == "not":
         if out[0] == "opaque":
             return True
